@@ -325,15 +325,78 @@ class Analysis:
         return self.nodes_calling(
             func, lambda c, names: any(x in shorts for x in names))
 
+    # ------------------------------------------ current-token-type domain
+    def token_type_hooks(self, func, advancing):
+        """(on_node, on_edge) hooks for cfg.find_path_sensitive that track the
+        set of TokenTypes members the current token may have: narrowed by
+        is_a / is_any tests, forgotten when a node in `advancing` (calls that
+        consume a token) is passed. An empty set makes the edge infeasible."""
+        adv = set(id(n) for n in advancing)
+        TOK = '<toktypes>'
+
+        def types_tested(expr):
+            if isinstance(expr, ast.Call) and isinstance(expr.func, ast.Attribute) \
+                    and expr.func.attr in ('is_a', 'is_any') \
+                    and 'current_token' in norm(expr.func.value):
+                vals = [self.try_fold(a, func) for a in expr.args]
+                if vals and all(isinstance(v, K.EnumVal) for v in vals):
+                    return frozenset(v.member for v in vals)
+            return None
+
+        def get(facts):
+            for a, t, _n in facts:
+                if a == TOK:
+                    return t
+            return None
+
+        def put(facts, value):
+            out = set(f for f in facts if f[0] != TOK)
+            if value is not None:
+                out.add((TOK, value, frozenset()))
+            return frozenset(out)
+
+        def on_node(n, facts):
+            if id(n) in adv:
+                return put(facts, None)
+            return facts
+
+        def on_edge(n, lab, facts):
+            if n.kind != 'cond' or lab not in (True, False):
+                return facts
+            tested = types_tested(n.ast)
+            if tested is None:
+                return facts
+            cur = get(facts)
+            if lab is True:
+                if cur is None:
+                    new = ('in', tested)
+                elif cur[0] == 'in':
+                    new = ('in', cur[1] & tested)
+                else:
+                    new = ('in', tested - cur[1])
+                if not new[1]:
+                    return None
+                return put(facts, new)
+            # False edge
+            if cur is None:
+                return put(facts, ('not', tested))
+            if cur[0] == 'not':
+                return put(facts, ('not', cur[1] | tested))
+            rest = cur[1] - tested
+            if not rest:
+                return None
+            return put(facts, ('in', rest))
+        return on_node, on_edge
+
     # ------------------------------------------------------- must-call
-    def must_reach_call(self, func, target_pred, success_only=True):
+    def must_reach_call(self, func, target_pred, verdict_funcs=()):
         """Greatest-fixpoint interprocedural MUST: on every CFG path from
-        entry to a (success) return of func there is a call satisfying
-        target_pred(callee FuncInfo) directly or to a function for which this
-        holds. Returns dict func -> bool for all functions reachable."""
-        key = ('must', id(target_pred), success_only)
-        if key in self._memo:
-            return self._memo[key]
+        entry to a return of f there is a call satisfying target_pred(callee)
+        directly or to a function for which this holds. For functions in
+        `verdict_funcs` (routines returning a success verdict) only the
+        returns that can be truthy count. Returns {func: bool} for every
+        function reachable from `func`."""
+        verdict = set(verdict_funcs)
         funcs = self.rs.reachable([func])
         must = {f: True for f in funcs}
         changed = True
@@ -342,10 +405,9 @@ class Analysis:
             for f in funcs:
                 if not must[f]:
                     continue
-                if not self._must_once(f, target_pred, must, success_only):
+                if not self._must_once(f, target_pred, must, f in verdict):
                     must[f] = False
                     changed = True
-        self._memo[key] = must
         return must
 
     def _must_once(self, f, target_pred, must, success_only):
@@ -358,6 +420,7 @@ class Analysis:
                                    for t in callees):
                     hit.append(n)
                     break
+
         def goal(n):
             if not n.is_return:
                 return False
